@@ -144,6 +144,11 @@ def line_engine(cid, P, tier, seed, replay, t0, obligations, discharged, assum_r
     open(f, 'w').write('\n'.join(lines) + '\n')
     violations = []
     stats = {'programs': len(lines), 'disagreements': 0, 'ops': sum(len(l.split()) for l in lines)}
+    kinds = {}
+    for l in lines:
+        for w in l.split():
+            k = w.split('=', 1)[1].split(':', 1)[0] if '=' in w and not w.startswith('top=') else ''.join(ch for ch in w if ch.isalpha())
+            if k: kinds[k] = kinds.get(k, 0) + 1
     samples = []
     if not harness_ok:
         rp = os.path.join(REPLAYS, f'{cid}-harness-build.txt')
@@ -192,7 +197,7 @@ def line_engine(cid, P, tier, seed, replay, t0, obligations, discharged, assum_r
                        'traces_validated_against_impl': stats['programs'] - stats['disagreements'],
                        'evaluations': stats['programs'], 'distinct_nontrivial': len(set(lines)),
                        'rule': f'corpus + seeded generator tools/gen_{eng}.py (operation sequences); distinct = textually distinct sequences',
-                       'distribution': {'total_ops': stats['ops']}, 'samples': samples or [{'note': 'none'}], 'exhaustive': False},
+                       'distribution': {'total_ops': stats['ops'], 'op_kinds': kinds}, 'samples': samples or [{'note': 'none'}], 'exhaustive': False},
           'assumptions': P['assumes'], 'wall_s': round(wall, 2), 'violations': len(violations)}
     json.dump(ev, open(evidence_path, 'w'), indent=1)
     if violations:
